@@ -17,14 +17,14 @@ import dlib  # noqa: E402
 
 warnings.simplefilter("ignore")
 
-from traits.api import (Any, ComparisonMode, Dict, HasTraits, Int, List, Set, Tuple, Union, Undefined,  # noqa: E402
+from traits.api import (Any, ComparisonMode, TraitType, Dict, HasTraits, Int, List, Set, Tuple, Union, Undefined,  # noqa: E402
                         Uninitialized)
 from traits.trait_notifiers import StaticTraitChangeNotifyWrapper  # noqa: E402
 from traits.trait_list_object import TraitListObject  # noqa: E402
 from traits.trait_dict_object import TraitDictObject  # noqa: E402
 
 KINDS = ["KConst", "KListCopy", "KDictCopy", "KTraitList", "KTraitDict", "KTraitSet", "KFactory", "KMethod",
-         "KTuple", "KUnion", "KEvent", "KMethodInt"]
+         "KTuple", "KUnion", "KEvent", "KMethodInt", "KTuple2"]
 MOD = 2305843009213693951
 
 
@@ -87,6 +87,10 @@ class UserList(list):
     """a list subclass instance as the declared default of an Any trait"""
 
 
+class InferredDefault(TraitType):
+    """a user-defined trait type whose default value kind is inferred from the default value (get_default_value)"""
+
+
 class World:
     def __init__(self, case):
         self.case = case
@@ -134,6 +138,8 @@ class World:
             return out
         if isinstance(v, (set, frozenset)):
             return sorted(v)
+        if isinstance(v, tuple) and len(v) == 2 and isinstance(v[0], list) and isinstance(v[1], list):
+            return self.content(v[0]) + self.content(v[1])
         if isinstance(v, tuple) and len(v) == 2 and isinstance(v[0], list):
             return self.content(v[0]) + [v[1]]
         return [-999]
@@ -148,6 +154,9 @@ class World:
             return {"shape": 6 if isinstance(v, TraitDictObject) else 2, "parts": [[self.oid(v), self.content(v)]]}
         if isinstance(v, (set, frozenset)):
             return {"shape": 3, "parts": [[self.oid(v), self.content(v)]]}
+        if isinstance(v, tuple) and len(v) == 2 and isinstance(v[0], list) and isinstance(v[1], list):
+            return {"shape": 7, "parts": [[self.oid(v), []], [self.oid(v[0]), self.content(v[0])],
+                                          [self.oid(v[1]), self.content(v[1])]]}
         if isinstance(v, tuple) and len(v) == 2 and isinstance(v[0], list) and type(v[1]) is int:
             return {"shape": 4, "parts": [[self.oid(v), []], [self.oid(v[0]), self.content(v[0])], [0, [v[1]]]]}
         return {"shape": 9, "parts": []}
@@ -190,6 +199,10 @@ class World:
                 md["comparison_mode"] = getattr(ComparisonMode, t["cmp"])
             if k == "KConst":
                 ns[a] = Int(c[0], **md)
+            elif k == "KListCopy" and t.get("inferred"):
+                ns[a] = InferredDefault(list(c), **md)
+            elif k == "KDictCopy" and t.get("inferred"):
+                ns[a] = InferredDefault(dict_of(c), **md)
             elif k == "KListCopy":
                 ns[a] = Any(UserList(c) if t.get("subclass") else list(c), **md)
             elif k == "KDictCopy":
@@ -210,6 +223,8 @@ class World:
                 ns["_%s_default" % a] = counted_int_method(n, c)
             elif k == "KTuple":
                 ns[a] = Tuple(List(Int, list(c)), Int(t["scalar"]), **md)
+            elif k == "KTuple2":
+                ns[a] = Tuple(List(Int, list(c)), List(Int, [t["scalar"]]), **md)
             elif k == "KUnion":
                 ns[a] = Union(List(Int, list(c)), Int, **md)
             else:
@@ -288,7 +303,7 @@ class World:
         elif dvt == 8 and declared is not None and shadow_kind is None:
             q = getattr(getattr(dv, "__func__", dv), "__qualname__", "")
             if q == "BaseTuple._get_default_value":
-                t["kind"], t["content"], t["scalar"] = "KTuple", list(declared["content"]), declared["scalar"]
+                t["kind"], t["content"], t["scalar"] = declared["kind"], list(declared["content"]), declared["scalar"]
             elif q == "Union._get_default_value":
                 t["kind"], t["content"] = "KUnion", list(declared["content"])
             else:
@@ -378,6 +393,8 @@ class World:
             return set(content)
         if kind == "KTuple":
             return (list(content), scalar)
+        if kind == "KTuple2":
+            return (list(content), [scalar])
         return list(content)
 
     def do(self, op):
@@ -397,11 +414,15 @@ class World:
         if k == "Introspect":
             mode = op[2]
             if mode >= 100000:
-                # a private copy of a trait definition, then metadata set on the copy: no effect on anybody
-                n, code = (mode - 100000) // 100, mode % 100
-                copy = obj.trait("t%d" % n, copy=True)
+                # a private copy of a trait definition (also asked for with force=True), then its metadata and its
+                # default edited: no effect on anybody
+                forced = mode >= 200000
+                n, code = (mode % 100000) // 100, mode % 100
+                copy = obj.trait("t%d" % n, True, True) if forced else obj.trait("t%d" % n, copy=True)
                 if copy is not None:
                     copy.label = str(code)
+                    if forced:
+                        copy.set_default_value(0, 40 + code)
             elif mode == 0:
                 obj.copyable_trait_names()
             elif mode == 1:
@@ -437,6 +458,8 @@ class World:
                 v[x] = x
             elif isinstance(v, set):
                 v.add(x)
+            elif isinstance(v, tuple) and isinstance(v[0], list) and isinstance(v[1], list):
+                v[1].append(x)          # the SECOND container member
             elif isinstance(v, tuple) and isinstance(v[0], list):
                 v[0].append(x)
         elif k == "Register" and op[2] == -2:
